@@ -70,7 +70,7 @@ def pos_cases(draw):
         hdr = {"alg": alg, "enc": enc, **hdr}
         if alg in rjwe.PBES2:
             hdr["p2c"] = 16
-    keymode = draw(st.sampled_from(["key", "key", "keyset", "keyset_kid", "callable", "decode-with-single-key-set"]))
+    keymode = draw(st.sampled_from(["key", "key", "keyset", "keyset_kid", "callable", "decode-with-single-key-set", "callable-nested"]))
     if keymode == "keyset_kid":
         hdr["kid"] = "the-key"
     return {"kind": "pos", "claims": claims, "dt": dt, "transport": transport, "header": hdr, "key": gk.key_to_record(key),
@@ -133,6 +133,16 @@ def run_pos(case) -> dict:
             return k
         if case["keymode"] == "callable":
             return lambda obj: k
+        if case["keymode"] == "callable-nested":
+            # the key callable itself decodes another JWT (say, a key-directory assertion under another key) before it answers
+            def resolve(obj):
+                if decoding:
+                    other = jkey({"kty": "oct", "k": b"directory-key-0123456789abcdef!!"}, "dict", True)
+                    t2 = jwt.encode({"alg": "HS256"}, {"dir": ["k1", "k2"], "n": 7}, other)
+                    if jwt.decode(t2, other).claims != {"dir": ["k1", "k2"], "n": 7}:
+                        raise AssertionError("nested decode wrong")
+                return k
+            return resolve
         return KeySet([k, decoy])
     allow = case.get("allow", "registry" if jwe_t else "algorithms")
     if jwe_t:
